@@ -29,7 +29,7 @@ def make_items(ctx, only=None):
         if only and name != only:
             continue
         rng = C.Prng(C.mix_seed(ctx.seed, 31, 7, i))
-        wl = K.gen_workload(rng, big=(i % 5 == 4), devel=True, swarm=True, splitdbg=True)
+        wl = K.gen_workload(rng, big=(i % 5 == 4), devel=True, swarm=True, splitdbg=True, deb=True)
         if i == 1:
             # devel packages (private-type suppressions evaluated by every comparison task) with several *changed* pairs,
             # so that more than one task really consults the suppressions
